@@ -209,17 +209,25 @@ pub fn gen_requests(rng: &mut Rng, n: u64, out: &mut Out) -> Vec<String> {
             req.push(format!("C16 break {a:x}"));
         }
         req.push("C16 start".into());
-        let fault_session = rng.chance(1, 4);
-        let stops = rng.range(1, 4);
+        // how often the reference execution reaches one of the breakpoints = how many stops there are
+        let hits = p.trace.iter().filter(|st| chosen.contains(&st.pc)).count() as u64;
+        out.count(if hits == 0 { "session.no-stop" } else { "session.with-stops" }, 1);
+        let fault_session = rng.chance(1, 3);
+        let stops = rng.range(1, 4).min(hits.max(1));
         for s in 0..stops {
             for _ in 0..rng.range(1, 3) {
-                let (name, _, tys) = if rng.chance(1, 25) { ("nosuch_fn", 0, &[][..]) } else { let f = rng.pick(FNS); (f.0, f.1, f.2) };
+                let (name, _, tys) = if rng.chance(1, 25) { ("nosuch_fn", 0, &[][..]) } else {
+                    // spread over the argument counts: pick the count first
+                    let want = rng.below(8) as usize;
+                    let cands: Vec<&(&str, u64, &[&str])> = FNS.iter().filter(|f| f.2.len() == want).collect();
+                    let f = if cands.is_empty() { rng.pick(FNS) } else { *rng.pick(&cands) };
+                    (f.0, f.1, f.2) };
                 let mut lits: Vec<Literal> = tys.iter().map(|t| gen_lit(rng, t, out)).collect();
                 if rng.chance(1, 15) { if rng.chance(1, 2) { lits.pop(); } else { lits.push(Literal::Int(3)); } out.count("call.wrong-count", 1); }
                 out.count(&format!("call.nargs.{}", lits.len()), 1);
                 if fault_session && s + 1 == stops && rng.chance(1, 2) {
-                    let kind = *rng.pick(&["POKE", "POKE", "PEEK", "STEP", "CONT", "SETREGS", "SETREGS", "GETREGS"]);
-                    let nth = rng.range(1, match kind { "POKE" => 10, "PEEK" => 6, "SETREGS" => 7, "GETREGS" => 4, "STEP" => 3, _ => 1 });
+                    let kind = *rng.pick(&["POKE", "POKE", "PEEK", "STEP", "CONT", "SETREGS", "SETREGS", "GETREGS", "GETREGS"]);
+                    let nth = rng.range(1, match kind { "POKE" => 12, "PEEK" => 7, "SETREGS" => 7, "GETREGS" => 4, "STEP" => 3, _ => 1 });
                     req.push(format!("C16 fault {kind} {nth}"));
                     out.count(&format!("fault.{kind}"), 1);
                 }
@@ -504,7 +512,7 @@ pub fn session(lines: &[String], emit: &mut dyn FnMut(String)) {
         }
         if part(&got_s, "calls ") != vec![format!("calls {}", nat_calls + ok_calls)] {
             oracle(emit, "callee-not-run-exactly-once", format!("{ok_calls} successful injected calls, program counted {:?}, natively {nat_calls}", part(&got_s, "calls ")));
-        } else if !is_merge(&part(&got_s, "log "), &part(&nat_s, "log "), &expected_log) {
+        } else if part(&got_s, "sums ") == part(&nat_s, "sums ") && !is_merge(&part(&got_s, "log "), &part(&nat_s, "log "), &expected_log) {
             oracle(emit, "callee-arguments-differ-from-literals", format!("log {:?}; expected a merge of the native log {:?} and {:?}", part(&got_s, "log "), part(&nat_s, "log "), expected_log));
         }
     }
